@@ -727,6 +727,8 @@ class Unit:
             edits.append((ob, ob, ins))
             if spec.get('head'):
                 edits.append((ob + 1, ob + 1, '\n' + M + 'proof\x01' + spec['head'].strip('\n') + '\x02\n'))
+            if spec.get('tail'):     # last thing in the loop body (before its closing brace)
+                edits.append((cb - 1, cb - 1, '\n' + M + 'proof\x01' + spec['tail'].strip('\n') + '\x02\n'))
             if spec.get('after'):
                 edits.append((cb, cb, '\n' + M + 'proof\x01' + spec['after'].strip('\n') + '\x02\n'))
         toks = code_tokens(body)
